@@ -39,7 +39,7 @@ func NewSlogHandler(logger Logger, config *HandlerOptions) logslog.Handler {
 		logger.SetLevel(config.Level)
 	}
 
-	return &handler4LogSlog{logger.SetColorMode(!config.NoColor).SetJSONMode(config.JSON)}
+	return &handler4LogSlog{Logger: logger.SetColorMode(!config.NoColor).SetJSONMode(config.JSON)}
 }
 
 // HandlerOptions is used for our log/slog Handler.
@@ -56,6 +56,34 @@ type HandlerOptions struct {
 
 type handler4LogSlog struct {
 	Logger
+	goas []groupOrAttrs // what WithGroup / WithAttrs added, in order
+}
+
+// groupOrAttrs holds either a group name or a list of attributes.
+type groupOrAttrs struct {
+	group string
+	attrs []Attr
+}
+
+func (s *handler4LogSlog) withGroupOrAttrs(goa groupOrAttrs) *handler4LogSlog {
+	cloned := *s
+	cloned.goas = append(s.goas[:len(s.goas):len(s.goas)], goa)
+	return &cloned
+}
+
+// qualify puts the attributes of a record under the open groups and in
+// front of them the attributes given to WithAttrs.
+func (s *handler4LogSlog) qualify(fields Attrs) Attrs {
+	for i := len(s.goas) - 1; i >= 0; i-- {
+		if goa := s.goas[i]; goa.group != "" {
+			if len(fields) > 0 {
+				fields = Attrs{NewGroupedAttr(goa.group, fields...)}
+			}
+		} else {
+			fields = append(append(make(Attrs, 0, len(goa.attrs)+len(fields)), goa.attrs...), fields...)
+		}
+	}
+	return fields
 }
 
 func convertLevelToLogSlog(lvl Level) logslog.Level {
@@ -104,10 +132,10 @@ func (s *handler4LogSlog) Handle(ctx context.Context, rec logslog.Record) error 
 		runtime.Callers(3+1+ei, pcs[:])
 		rec.PC = pcs[0]
 
-		wi.WriteThru(ctx, lvl, rec.Time, rec.PC, rec.Message, fields)
+		wi.WriteThru(ctx, lvl, rec.Time, rec.PC, rec.Message, s.qualify(fields))
 	} else {
 		fields := convertLogSlogRecordAttrs(rec)
-		s.LogAttrs(ctx, lvl, rec.Message, fields)
+		s.LogAttrs(ctx, lvl, rec.Message, s.qualify(fields))
 	}
 	return nil
 }
@@ -115,25 +143,23 @@ func (s *handler4LogSlog) Handle(ctx context.Context, rec logslog.Record) error 
 // WithAttrs returns a new Handler whose attributes consist of
 // both the receiver's attributes and the arguments.
 func (s *handler4LogSlog) WithAttrs(attrs []logslog.Attr) logslog.Handler {
+	if len(attrs) == 0 {
+		return s
+	}
 	fields := make([]Attr, len(attrs))
 	for i, attr := range attrs {
 		fields[i] = convertAttrToField(attr)
 	}
-	return s.withFields(fields...)
+	return s.withGroupOrAttrs(groupOrAttrs{attrs: fields})
 }
 
 // WithGroup returns a new Handler with the given group appended to
 // the receiver's existing groups.
 func (s *handler4LogSlog) WithGroup(name string) logslog.Handler {
-	return s.withFields(Group(name))
-}
-
-// withFields returns a cloned Handler with the given fields.
-func (s *handler4LogSlog) withFields(fields ...Attr) *handler4LogSlog {
-	cloned := &handler4LogSlog{
-		New().SetAttrs(fields...),
+	if name == "" {
+		return s
 	}
-	return cloned
+	return s.withGroupOrAttrs(groupOrAttrs{group: name})
 }
 
 var _ logslog.Handler = (*handler4LogSlog)(nil)
